@@ -370,23 +370,35 @@ fn multi_context(cfg: &Cfg, rep: &mut Report) {
         }
         su.w.set_ledger(su.w.ledger() + 5);
         let nmeta = rng.idx(nctx + 2); // 0 ..= nctx+1 descriptors
+        // descriptors in the order of the contexts, or (one time in three) rotated by one: every
+        // context then meets the descriptor of another operation
+        let permuted = nctx >= 2 && nmeta >= 2 && rng.chance(1, 3);
         let mut metas: SVec<OperationMeta> = SVec::new(e);
         for i in 0..nmeta {
-            let salt = salts.get(i).cloned().unwrap_or_else(|| BytesN::from_array(e, &[99u8; 32]));
+            let j = if permuted { (i + 1) % nmeta } else { i };
+            let salt = salts.get(j).cloned().unwrap_or_else(|| BytesN::from_array(e, &[99u8; 32]));
             metas.push_back(OperationMeta { predecessor: zero.clone(), salt, executor: None });
         }
+        let ids: std::vec::Vec<BytesN<32>> = (0..nctx).map(|i| invoke(e, &su.c, "hash_operation", args!(e, su.c, Symbol::new(e, "update_delay"), args!(e, 10 + i as u32), zero.clone(), salts[i].clone())).must("hash_operation")).collect();
+        let before: std::vec::Vec<u32> = ids.iter().map(|id| op_state(&su, id)).collect();
         let payload = BytesN::from_array(e, &[1u8; 32]);
         let r = e.try_invoke_contract_check_auth::<soroban_sdk::Error>(&su.c, &payload, metas.into_val(e), &ctxs);
         rep.evaluations += 1;
-        let all_covered = nmeta >= nctx && ready.iter().all(|r| *r);
+        let after: std::vec::Vec<u32> = ids.iter().map(|id| op_state(&su, id)).collect();
+        if r.is_ok() {
+            rep.check("bypass", before.iter().all(|s| *s == 2) && after.iter().all(|s| *s == 3), "C09/bypass/__check_auth/accepted-without-consuming-every-operation", || format!("__check_auth accepted {nctx} contexts; operation states {before:?} -> {after:?} (2 ready, 3 done)"));
+        } else {
+            rep.check("res", before == after, "C09/res/__check_auth/refusal-changed-operation-state", || format!("__check_auth refused; operation states {before:?} -> {after:?}"));
+        }
+        let all_covered = nmeta >= nctx && ready.iter().all(|r| *r) && !permuted;
         rep.op(format!("__check_auth contexts={nctx} ready={ready:?} descriptors={nmeta} -> {}", if r.is_ok() { "ok" } else { "err" }));
-        rep.case(format!("check_auth/ctx={nctx}/meta={nmeta}/all_ready={}/{}", ready.iter().all(|r| *r), r.is_ok()));
+        rep.case(format!("check_auth/ctx={nctx}/meta={nmeta}/permuted={permuted}/all_ready={}/{}", ready.iter().all(|r| *r), r.is_ok()));
         if r.is_ok() {
             rep.check("bypass", all_covered, "C09/bypass/__check_auth/context-authorized-without-descriptor-or-ready-op", || {
                 format!("__check_auth accepted {nctx} contexts (ready: {ready:?}) with {nmeta} descriptors")
             });
         }
-        if nmeta == nctx && ready.iter().all(|r| *r) {
+        if nmeta == nctx && ready.iter().all(|r| *r) && !permuted {
             rep.check("ref", r.is_ok(), "C09/ref/__check_auth/proper-refused", || format!("{nctx} ready contexts with {nmeta} matching descriptors refused: {r:?}"));
         }
         rep.end_history();
